@@ -4,7 +4,7 @@ from ..spec import ESpec, VSpec, hx
 from .. import runner, textgen
 from ..strcorpus import FIELD_NAMES
 
-KEYS = ['Teacher', 'room', 'students', 'mandatory', 'fn', 'type', 'match', 'Key_9', 'x', 'self', 'Self', 'r2d2']
+KEYS = ['Teacher', 'room', 'students', 'mandatory', 'fn', 'type', 'match', 'Key_9', 'x', 'self', 'Self', 'r2d2', 'r#type', 'r#room', 'r#fn']
 STRS = ['Ms.Frizzle', '', 'ünï "q" \\', '{0}', '201']
 INTS = [0, 16, -1, -9223372036854775808, 9223372036854775807, 42, -100]
 KINDS = [('unit', []), ('tuple', ['u8']), ('named', ['i32', 'String'])]
@@ -51,13 +51,15 @@ def generate(tier, rng):
                 sizes.append(sz)
                 rest -= sz
             e.extra['prop_groups'][v.ident] = sizes
+            if (k + i) % 3 != 0:
+                e.extra.setdefault('prop_interleave', {})[v.ident] = ['attr', 'list'][(k + i) % 2]
             v.dis = (k % 5 == 3 and i == nvar - 1 and nvar > 1)
             e.variants.append(v)
         e.extra['shape'] = 'n=%d k=%d' % (nvar, k % 7)
         c.add(e)
         queries = set(allkeys)
         for key in list(allkeys):
-            queries |= {key.lower(), key.upper(), key + 'x', key[:-1], ' ' + key, 'r#' + key}
+            queries |= {key.lower(), key.upper(), key + 'x', key[:-1], ' ' + key, 'r#' + key, key[2:] if key.startswith('r#') else key}
         queries |= {'', 'nope'}
         for _ in range(4 if tier == 'quick' else 20):
             queries.add(textgen.random_ascii(rng, 5))
@@ -78,7 +80,7 @@ def run(tier, seed, rng):
     table, distinct = distribution(c, out['model'])
     res.cov['input_distribution'] = table
     res.cov['distinct_nontrivial'] = len(set((d[0], d[1]) for d in distinct))
-    res.cov['rule'] = ('0..6 properties per variant split over 1..3 props(..) groups, keys shared across variants and across types (same key as str in one variant and int in another; '
+    res.cov['rule'] = ('0..6 properties per variant split over 1..3 props(..) groups (adjacent, separated by another strum attribute, or in one list with another item between them), raw-identifier keys (r#type is the key "r#type"), keys shared across variants and across types (same key as str in one variant and int in another; '
                        'same key with two types in one variant), keyword keys (fn, type, match, self, Self), negative / i64::MIN / i64::MAX integers, empty and non-ASCII strings, disabled variants; '
                        'queried through get_str / get_int / get_bool with EVERY key declared anywhere in the enum, case / prefix / suffix / whitespace / r# variations and random strings; '
                        'distinct = (enum shape, query class)')
